@@ -3,5 +3,6 @@ CONSTANTS
  Procs <- MCProcs
  OpSet <- MCOps
  MaxCycles = 2
+ Defects = {}
 INVARIANTS TypeOK AtMostOneStartSucceeds StartedIffAStartSucceeded RoleOfTheWinner GatheringNeedsACycle ClosedIsFinal
 CHECK_DEADLOCK FALSE
